@@ -659,6 +659,23 @@ func genHistory(rng *rand.Rand, cfg genCfg, n int) [][]op {
 			case k < 9: // ingress add / replace
 				ns, name := genNS(rng), pickS(rng, ingNames)
 				o = genIngress(rng, cfg, ns, name, 10+rng.Intn(8))
+				if k == 8 {
+					// an ingress OLDER than everything (stamps are data) - or an existing one
+					// updated - that starts to declare tls WITHOUT secretName for a host another
+					// ingress already declares tls for, the host not being among its rules
+					o.Stamp = 1 + rng.Intn(8)
+					var owned []string
+					for _, ing := range c.ofKind("Ingress") {
+						for _, t := range ing.TLS {
+							if t.Secret != "" && (ing.NS != ns || ing.Name != name) {
+								owned = append(owned, t.Hosts...)
+							}
+						}
+					}
+					if len(owned) > 0 {
+						o.TLS = append(o.TLS, tlsBlk{Hosts: []string{owned[rng.Intn(len(owned))]}, Secret: ""})
+					}
+				}
 			default:
 				if ings := c.ofKind("Ingress"); len(ings) > 0 {
 					ing := ings[rng.Intn(len(ings))]
